@@ -42,9 +42,18 @@ def snapshot(det, d):
 
 
 def run_chunks(det, chunks, as_array=True, on_step=None):
+    """Feed the chunks one call each.  Every chunk is handed over in an array of its own which is overwritten
+    right after the call (the streaming pattern of reading each block into a buffer that is reused): a detector
+    that keeps a view of the caller's array instead of a copy sees the overwritten data in its next call."""
     d = make(det)
     for k, c in enumerate(chunks):
-        d.process(np.asarray(c, dtype=np.float64) if as_array else c)
+        if as_array:
+            buf = np.array(c, dtype=np.float64)
+            d.process(buf)
+            buf[0::2] = 9.5e5
+            buf[1::2] = -9.5e5
+        else:
+            d.process(c)
         if on_step is not None:
             on_step(k, d)
     return d
